@@ -254,6 +254,17 @@ pub fn all() -> Vec<Prop> {
             shards_quick: 8,
             shards_thorough: 16,
         },
+        Prop {
+            id: "C20",
+            run: props::layoutdep::run_c20,
+            replayers: props::layoutdep::replayers,
+            rule: "proptest metamorphic: a canonical owned C-order array vs a second representation of the same logical array (column-major owned, view with permuted axes / steps 1..3 / reversal / offset inside a sentinel parent, mutable view, ArcArray, CowArray, static dimension type vs into_dyn), 1-4-D, f64 / i32 / Option<i32>, for two-operand routines both operands vary independently. One case evaluates the whole adapter table on both representations: min/max/argmin/argmax (+skipnan), fold/visit/indexed fold/per-axis fold, mean, harmonic and geometric mean, entropy, central_moment(s), skewness, kurtosis, all ten deviation measures, cross_entropy, kl_divergence, weighted_sum/mean/var/std and their per-axis forms, cov, pearson_correlation, histogram, GridBuilder, quantile(s)_axis_mut with four strategies, quantile_mut, quantiles_mut, get_from_sorted_mut, get_many_from_sorted_mut, partition_mut, quantile_axis_skipnan_mut and map_axis_skipnan_mut on f64 and Option<i32> (mutating routines on clones). Oracle: order-based, integer, error and shape results identical; float sums within twice the routine's summation budget; index-returning routines must designate an element equal to the canonical extremum. Distinct by hash. Non-trivial: the second representation is not the standard layout (or differs in ownership / dimension type) and some axis has length >= 2.",
+            assumptions: NUM_ASSUMPTIONS,
+            profiles_quick: BOTH,
+            profiles_thorough: BOTH,
+            shards_quick: 8,
+            shards_thorough: 16,
+        },
     ]
 }
 
